@@ -11,9 +11,11 @@ import (
 	"time"
 
 	connect "github.com/bufbuild/connect-go"
+	pingv1 "github.com/bufbuild/connect-go/internal/gen/connect/ping/v1"
 	"github.com/bufbuild/connect-go/verif/memnet"
 	"github.com/bufbuild/connect-go/verif/pbt"
 	"github.com/bufbuild/connect-go/verif/prog"
+	"google.golang.org/protobuf/proto"
 	"pgregory.net/rapid"
 )
 
@@ -32,7 +34,25 @@ type Case struct {
 	// InInterceptor: the panic is raised not by the handler function but by an
 	// interceptor declared AFTER WithRecover, i.e. nested inside it (Behind ≥ 1).
 	InInterceptor bool `json:"in_interceptor,omitempty"`
+	// InMarshal: the panic is raised inside conn.Send, by the handler's codec
+	// while it marshals the response message after the After-th one
+	// (streaming kinds with the binary codec only).
+	InMarshal bool `json:"in_marshal,omitempty"`
 }
+
+const marshalTrap = 424242
+
+// trapCodec is the binary codec, except that marshalling the trap message panics.
+type trapCodec struct{ kind string }
+
+func (trapCodec) Name() string { return "proto" }
+func (c trapCodec) Marshal(m any) ([]byte, error) {
+	if r, ok := m.(*pingv1.PingResponse); ok && r.GetNumber() == marshalTrap {
+		prog.DefaultPanic(c.kind)
+	}
+	return proto.Marshal(m.(proto.Message))
+}
+func (trapCodec) Unmarshal(b []byte, m any) error { return proto.Unmarshal(b, m.(proto.Message)) }
 
 // panicker is an interceptor that panics instead of calling on (warm-up calls
 // pass through).
@@ -109,7 +129,9 @@ func handlerProg(c Case) (*prog.HandlerProg, []prog.Msg) {
 			j++
 		}
 	}
-	if c.Panic != "" && !c.InInterceptor {
+	if c.Panic != "" && c.InMarshal {
+		hp.Steps = append(hp.Steps, prog.HStep{Op: "send", Msg: &prog.Msg{N: marshalTrap}})
+	} else if c.Panic != "" && !c.InInterceptor {
 		if c.CtxDone {
 			hp.Steps = append(hp.Steps, prog.HStep{Op: "waitctx"})
 		}
@@ -157,6 +179,9 @@ func run(c Case, withRecover bool) (*prog.CResult, *memnet.Exchange, []recCall) 
 		if len(ics) > 0 {
 			opts = append(opts, connect.WithInterceptors(ics...))
 		}
+	}
+	if c.InMarshal && c.Panic != "" {
+		opts = append(opts, connect.WithCodec(trapCodec{kind: c.Panic}))
 	}
 	log := &prog.HLog{}
 	h := prog.NewHandler(c.Cfg.Kind, hp, log, opts...)
@@ -325,6 +350,10 @@ func gen(t *rapid.T) Case {
 		// before the handler function is reached
 		c.InInterceptor, c.After, c.More = true, 0, 0
 	}
+	if c.Panic != "" && !c.CtxDone && !c.InInterceptor && c.Cfg.Codec == "proto" && (c.Cfg.Kind == prog.Server || c.Cfg.Kind == prog.Bidi) && rapid.IntRange(0, 5).Draw(t, "inMarshal") == 0 {
+		// raised inside conn.Send (the codec panics), i.e. while the handler is sending
+		c.InMarshal, c.More, c.Warmups = true, 0, 0
+	}
 	c.Before = rapid.IntRange(0, 2).Draw(t, "before")
 	c.Behind = rapid.IntRange(0, 2).Draw(t, "behind")
 	if c.InInterceptor {
@@ -348,7 +377,7 @@ func gen(t *rapid.T) Case {
 
 var spec = pbt.Spec[Case]{
 	Prop: "C19", Name: "recover", Gen: gen, Check: check,
-	Rule: "rapid-generated panic value (nil, error, *connect.Error, string, int, struct, pointer, runtime error, http.ErrAbortHandler, an error wrapping it) or a no-panic control × 4 RPC kinds × 3 protocols × 2 codecs × panic point (before any receive, after i receives, after j sends, with further sends scheduled; optionally only after the handler's context has ended because the propagated client deadline passed; or raised by an interceptor declared after WithRecover, i.e. nested inside it) × position of WithRecover among 0..4 pass-through interceptors × what the recovery function returns (coded error with details/metadata, plain error) × 0..2 non-panicking calls through the same handler first; oracle: called exactly once with the value a plain deferred recover() yields for the same panic in the same binary (differential against the Go runtime, so both panicnil modes are covered), client receives exactly the returned error after the messages already sent, the abort sentinel is re-raised identically without calling the function, and a non-panicking exchange is byte-identical to the same handler without WithRecover; non-trivial = progress before the panic OR nil/abort value OR interceptors outside the recover interceptor",
+	Rule: "rapid-generated panic value (nil, error, *connect.Error, string, int, struct, pointer, runtime error, http.ErrAbortHandler, an error wrapping it) or a no-panic control × 4 RPC kinds × 3 protocols × 2 codecs × panic point (before any receive, after i receives, after j sends, with further sends scheduled; optionally only after the handler's context has ended because the propagated client deadline passed; or raised by an interceptor declared after WithRecover, i.e. nested inside it; or raised inside conn.Send by the handler's codec) × position of WithRecover among 0..4 pass-through interceptors × what the recovery function returns (coded error with details/metadata, plain error) × 0..2 non-panicking calls through the same handler first; oracle: called exactly once with the value a plain deferred recover() yields for the same panic in the same binary (differential against the Go runtime, so both panicnil modes are covered), client receives exactly the returned error after the messages already sent, the abort sentinel is re-raised identically without calling the function, and a non-panicking exchange is byte-identical to the same handler without WithRecover; non-trivial = progress before the panic OR nil/abort value OR interceptors outside the recover interceptor",
 }
 
 func TestRecover(t *testing.T) { pbt.Run(t, spec) }
